@@ -22,6 +22,8 @@ def run(ctx):
     _sched.validate(ctx, progs, "random add/remove/step histories, 6 ids, priorities -2..2")
     progs = [S.random_program(rng, n_ids=4, prios=(-7, 0, 0, 5, 2000000000, -2000000000), length=25) for _ in range(n // 3)]
     _sched.validate(ctx, progs, "random histories with repeated / extreme priorities")
+    progs = [S.random_program(rng, n_ids=5, length=40, p_mut=0.0, windows=True) for _ in range(n // 2)]
+    _sched.validate(ctx, progs, "random histories of systems with activity windows (some close while the model runs), priorities -2..2")
     from .. import suite
     suite.run(ctx, ["sched"])
     if not q:
